@@ -206,6 +206,20 @@ def check(prop, tier, seed):
             for er in b["errors"][:3]:
                 checker_failures.append("bounded case crashed: %s %s\n%s" % (er["kind"], json.dumps(er["params"])[:300], er["traceback"][-800:]))
 
+    # ---- conformance of the index-level library contracts with the installed NumPy
+    if entry.get("np_conformance"):
+        try:
+            pc = subprocess.run(["python3-vt", os.path.join(VERIF, "bounded", "np_conformance.py"), "--n", "8" if tier == "quick" else "60",
+                                 "--seed", str(seed)], capture_output=True, text=True, timeout=1800, cwd=VERIF)
+            cj = json.loads(pc.stdout.strip().splitlines()[-1])
+            bounded_ev.append({"what": cj["what"], "bound": cj["bound"], "evaluations": cj["evaluations"],
+                               "distinct_nontrivial": cj["distinct_nontrivial"], "rule": cj["rule"], "samples": [cj["per_kind"]],
+                               "per_kind": cj["per_kind"], "wall_s": 0.0, "failures": cj["n_failures"]})
+            if cj["n_failures"]:
+                checker_failures.append("library contract does not match the installed NumPy: %s" % json.dumps(cj["failures"][:2])[:400])
+        except Exception as e:
+            checker_failures.append("np_conformance did not run: %r" % (e,))
+
     # ---- refuted obligations: replay
     for o, r in refuted:
         kf = match_finding(findings, prop, name=o.name)
@@ -231,9 +245,14 @@ def check(prop, tier, seed):
                    "native": native, "native_status": st, "native_result": out}
         found = st == "fail"
         if not found and b is not None and "crash" not in b and b["failures"]:
-            # the bounded family already exhibits a failing input for this property
+            # small-scope native search (DESIGN 2.2 step 3): the bounded family exhibits a failing
+            # input of the real code for this property on this tree; it is the replayable witness
             fl = b["failures"][0]
             payload["native_search"] = {"suite": prop, "kind": fl["kind"], "params": fl["params"], "detail": fl["detail"]}
+            if not (native and ("code" in native or "kind" in native)):
+                payload["native"] = {"suite": prop, "kind": fl["kind"], "params": fl["params"]}
+                payload["native_status"], payload["native_result"] = "fail", fl["detail"]
+            found = True
         # (a) input-level refutation by an SMT model: a violation as such.
         # (b) sufficient-condition refutations (value view / exact-algebra procedures: the
         #     identity fails, which refutes only the proof attempt) and loop-invariant
@@ -289,6 +308,10 @@ def check(prop, tier, seed):
         "dropped_by_extraction": frontend.DROPPED,
         "backends": sorted({r.get("backend", "?") for r in results}) if results else [],
         "solver_time_s": round(sum(r.get("time_s", 0) for r in results), 3),
+        "cvc5_recheck": {"checked": sum(1 for r in results if "cvc5" in r),
+                         "agree": sum(1 for r in results if "cvc5" in r and r["cvc5"]["result"] == r["result"]),
+                         "cvc5_unknown": sum(1 for r in results if "cvc5" in r and r["cvc5"]["result"] == "unknown"),
+                         "disagree": sum(1 for r in results if r.get("disagreement"))},
         "solve_wall_s": round(solve_wall, 3),
         "vc_generation_s": round(ctx.gen_time, 3),
         "samples": samples + [{"obligation_names": names_sample}],
